@@ -16,3 +16,52 @@ PROPS['C11'] = dict(
                  'the pure model cannot express slice aliasing between a built Positions value and the builder; '
                  'that clause is tied to the code only by re-reading every built value at the end of each history'],
 )
+
+_root_modelled = 'math/big arithmetic as Z (Div/DivMod only with positive divisor and non-negative dividend); int64/big.Rat conversions as identities on values'
+for _p, _k, _name in (('C01', 'KSqrt', 'square'), ('C02', 'KCube', 'cube')):
+    PROPS[_p] = dict(
+        theorem='%s_exact, %s_zero, %s_panic_iff, %s_checker_sound (Properties/%s.v)' % (_p, _p, _p, _p, _p),
+        functional=True,
+        level_text='Theorem for every positive radicand num/den and every depth n (no bound on magnitude or digit count): the model of the '
+                   '%s-root constructors (normalisation loops, long division into groups, digit loop with the incr/incr2 recurrences) returns an '
+                   'exponent and digits whose every prefix satisfies the property\'s inequality in cross-multiplied form, digits in 0..9, first digit >= 1, '
+                   'zero for radicand 0, panic iff bad sign; proofs by loop invariants (norm_spec, gen_step_inv/cgen_step_inv, run_list_spec). Tied to '
+                   'the code of all three versions and all four constructors by a differential run, and the extracted checker ctor_check_fast '
+                   '(proved sound) judges every implementation output independently of the model.' % _name,
+        level_note='Trusted: Coq kernel, extraction, drivers; math/big modelled by Z. "Depends only on the value of r" is checked by running each value '
+                   'through several representations and constructors (differential), not yet stated as a theorem. The memoizer between the digit '
+                   'closure and At() is covered by C04-C06.',
+        rule='cases: zero and malformed arguments, every integer <= 300 (2000 thorough) and small fractions, perfect powers s^p and s^p+-1 for '
+             's = 99..9, 100..0x, random up to 40 digits, trailing zeros, each at scales 10^-t, neighbours of powers of ten and their reciprocals, '
+             'int64 extremes, random big integers/rationals (1-60 digits, up to 400 thorough) each through a second representation c*num/c*den; '
+             'all constructors that can represent the value, versions rotating (all versions in thorough). Non-trivial: the model result is '
+             'deep (depth reached), finite, has negative/zero exponent, contains a 0 digit, zero or panic; distinct = distinct (version, op, args).',
+        modelled=_root_modelled,
+        assumptions=['observations are read through At(p) for p < depth, so they also pass through the memoizer'],
+    )
+PROPS['C03'] = dict(
+    theorem='C03_end_exact, C03_ends_iff_exact, C03_last_digit, C03_never_ends (Properties/C03.v)',
+    functional=True,
+    level_text='Theorems for all radicands and both root kinds: the end is reported after L digits only if those digits are exact and no shorter prefix is '
+               '(C03_end_exact); after n digits without end, the end comes next iff the n digits are exact (C03_ends_iff_exact); the last digit of a '
+               'finite sequence is non-zero; if no prefix is ever exact the sequence never ends and every position holds 0..9. Differential run over '
+               'finite roots at every scale, near misses, perfect powers of non-terminating fractions; extracted checker on every output.',
+    level_note='Trusted as C01/C02. "Position L and every later position report no digit, iteration stops, NumDigits = L" is observed through At here; '
+               'the agreement of the other read paths with At is C04.',
+    rule='cases: squares/cubes of terminating decimals a/10^t (a random, with trailing zeros, 99..9 of lengths around the block size), depth just beyond the '
+         'end; near misses s^p+-1; perfect powers over q^p for q in {3,7,9,11,13,21}; depths exactly at, before and after the end. Non-trivial as C01.',
+    modelled=_root_modelled,
+    assumptions=[],
+)
+PROPS['C13'] = dict(
+    theorem='C13_rat, C13_rat_ends_iff, C13_rat_no_trailing_zero, C13_checker_sound (Properties/C13.v)',
+    functional=True,
+    level_text='Theorem for every positive rational: NewNumberFromBigRat\'s model (normalisation + long division at base 10) yields exponent e and digits '
+               'whose every prefix M satisfies M*10^[e-j]*den <= num*10^[j-e] < (M+1)*10^[e-j]*den (digit p = floor(v*10^(p+1-e)) mod 10), ends exactly when '
+               'the expansion terminates, no trailing zero. Differential run + extracted checker.',
+    level_note='Part 1 of C13 (rational constructor). NewNumberForTesting / NewFiniteNumber / NewNumber(g) are added with the memoizer model.',
+    rule='cases: all n/d with n,d <= 40 (120 thorough), 10^j and neighbours and their reciprocals, random rationals with random, power-of-ten and 2^a5^b '
+         'denominators. Non-trivial as C01.',
+    modelled=_root_modelled,
+    assumptions=[],
+)
